@@ -4,8 +4,8 @@
    send and vice versa: no hang, no leftover) and the ranges contain every real receiver; ranks that are only inside a
    range (over-approximation) get a message with flag 0 and are dropped.  All receives name their source. *)
 From Coq Require Import ZArith Lia List Bool Permutation Sorting.Sorted.
-From ScV Require Import Base.CInt MPI.Prog Gen.Consts Gen.NotifyC01 C01.MergeModel C01.MergeProofs
-     C01.NotifyProgs C01.NotifyProgProofs C01.BinaryRound C01.PexRound.
+From ScV Require Import Base.CInt MPI.Prog Gen.Consts Gen.NotifyC01 C01.MergeModel C01.MergeProofs C01.MergeCorr
+     C01.NotifyProgs C01.NotifyProgProofs C01.RecordOps C01.BinaryRound C01.PexRound.
 From ScV Require C15.RangesModel C15.RangesDecode C15.RangesProps C15.RangesAdaptive.
 Import ListNotations.
 Local Open Scope Z_scope.
@@ -69,7 +69,7 @@ Section Exchange.
     - assert (Hn : ~ In me (R q)) by (intros Hin; apply memz_In in Hin; congruence). rewrite (rmsg_unlisted q me Hn). cbn [Z.eqb negb]. exact IH.
   Qed.
 
-  Variable tbl : list (list (Z * Z)).
+  Variable tbl : list (list RangesModel.pair).
   Hypothesis Htl : length tbl = Z.to_nat P.
   Hypothesis Hwf : RangesDecode.wf_table tbl.
   (* the ranges of rank q contain every rank it lists (other than itself) *)
@@ -117,7 +117,7 @@ Section Exchange.
     assert (HlenS : length S = length rcv) by (unfold S; rewrite map_length; reflexivity).
     rewrite <- HlenS, run_do_sends.
     rewrite (run_do_recvs c_SC_TAG_NOTIFY_RANGES (fun q => rmsg q me)). cbn [rev app].
-    rewrite real_senders. fold snds. unfold snds at 1. rewrite (listed_are_decoded me Hme).
+    rewrite real_senders. unfold snds. rewrite !(listed_are_decoded me Hme). fold snds.
     set (others := map (fun q => (q, item q me)) (filter (fun q => memz me (R q) && negb (q =? me)) (ranks P))).
     assert (Hall : match index_of me (R me) 0 with
                    | Some i => insert_by_src (me, match rep me with Some ps => nth_pay ps i | None => [] end) others
@@ -125,7 +125,7 @@ Section Exchange.
                    end = map (fun q => (q, item q me)) (transpose P R me)).
     { unfold transpose. destruct (index_of me (R me) 0) as [i|] eqn:Ei.
       - destruct (index_of_some _ _ _ _ Ei) as [_ [Hi Hn]]. rewrite Nat.sub_0_r in Hi, Hn.
-        assert (Hin : In me (R me)) by (rewrite <- Hn; apply nth_In; exact Hi).
+        pose proof (nth_In (R me) 0 Hi) as Hin. rewrite Hn in Hin.
         assert (Hown : match rep me with Some ps => nth_pay ps i | None => [] end = item me me).
         { unfold rep, item. destruct hp; [|reflexivity]. unfold nth_pay.
           rewrite (nth_indep _ [] (pay me 0)) by (rewrite map_length; exact Hi). rewrite (map_nth (pay me)), Hn. reflexivity. }
@@ -149,3 +149,152 @@ Section Exchange.
     unfold k0 in *. cbn [run] in Er. destruct rest; inversion Er; subst; rewrite app_nil_r; unfold S, rmsg; rewrite !map_map; reflexivity.
   Qed.
 End Exchange.
+
+(* ---- the table: sc_ranges_adaptive as Allreduce (MAX) + Allgather -------------------------------------------------------------- *)
+Lemma unflat_pairs_flat : forall (l : list (Z * Z)) rest, unflat_pairs (length l) (flat_pairs l ++ rest) = l.
+Proof. induction l as [|[a b] l IH]; intros rest; [reflexivity|]. cbn [length flat_pairs flat_map app unflat_pairs nth skipn fst snd]. f_equal. apply IH. Qed.
+
+Lemma flat_pairs_length (l : list (Z * Z)) : length (flat_pairs l) = (2 * length l)%nat.
+Proof. induction l as [|p l IH]; [reflexivity|]. unfold flat_pairs in *. cbn [flat_map length app]. rewrite IH. lia. Qed.
+
+Lemma unflat_rows_concat (w : nat) : forall (rows : list (list (Z * Z))), Forall (fun r => length r = w) rows ->
+  unflat_rows (length rows) w (concat (map flat_pairs rows)) = rows.
+Proof.
+  induction rows as [|r rows IH]; intros Hw; [reflexivity|]. inversion Hw as [|? ? Hr Hrs]; subst.
+  cbn [length map concat unflat_rows].
+  rewrite firstn_app_exact by (rewrite flat_pairs_length; reflexivity). rewrite skipn_app_exact by (rewrite flat_pairs_length; reflexivity).
+  rewrite <- (app_nil_r (flat_pairs r)). rewrite unflat_pairs_flat. f_equal. apply IH. exact Hrs.
+Qed.
+
+Lemma ranks_length P : length (ranks P) = Z.to_nat P.
+Proof. unfold ranks. rewrite map_length, seq_length. reflexivity. Qed.
+
+Lemma combine_map_r {A B} (f : A -> B) l : combine l (map f l) = map (fun x => (x, f x)) l.
+Proof. induction l; simpl; [reflexivity|f_equal; assumption]. Qed.
+
+Section Ranges.
+  Variable coll : Z -> list payload -> Z -> payload.
+  (* contracts: MPI_Allreduce (MPI_MAX) over two non-negative ints per rank; MPI_Allgather *)
+  Hypothesis coll_max : forall cs r, coll K_ALLREDUCE_MAX cs r =
+    [RangesModel.allreduce_max (map (fun c => nth 0 c 0) cs); RangesModel.allreduce_max (map (fun c => nth 1 c 0) cs)].
+  Hypothesis coll_allgather : forall cs r, coll K_ALLGATHER cs r = concat cs.
+
+  Variable P : Z.
+  Variable R : Z -> list Z.
+  Variable pay : Z -> Z -> payload.
+  Variable hp : bool.
+  Variable sz : Z.
+  Variable nr : Z.                                    (* budget of ranges, sc_notify_ranges_set_num_ranges *)
+  Hypothesis HP : 0 < P.
+  Hypothesis Hnr : 1 <= nr.
+  Hypothesis HR : forall f, 0 <= f < P -> ssorted (fun x => x) (R f) /\ forall t, In t (R f) -> 0 <= t < P.
+
+  Definition procs (s : Z) : list Z := ranges_procs P s (R s).
+  Definition vecs : list (list Z) := map procs (ranks P).
+  Definition local (s : Z) : Z * list RangesModel.pair :=
+    let '(fp, lp) := RangesModel.first_last (procs s) s in RangesModel.ranges_compute (procs s) s fp lp nr.
+  Definition maxwin : Z := snd (fst (RangesModel.adaptive_all vecs nr)).
+  Definition gtbl : list (list RangesModel.pair) := snd (RangesModel.adaptive_all vecs nr).
+  Definition contrib1 (s : Z) : payload := [RangesModel.peer_count (procs s) s; fst (local s)].
+  Definition contrib2 (s : Z) : payload := flat_pairs (firstn (Z.to_nat maxwin) (snd (local s))).
+
+  Lemma procs_length s : length (procs s) = Z.to_nat P.
+  Proof. unfold procs, ranges_procs. rewrite map_length, ranks_length. reflexivity. Qed.
+  Lemma vecs_length : length vecs = Z.to_nat P.
+  Proof. unfold vecs. rewrite map_length, ranks_length. reflexivity. Qed.
+  Lemma vecs_uniform : forall v, In v vecs -> length v = length vecs.
+  Proof. intros v Hv. unfold vecs in Hv. apply in_map_iff in Hv. destruct Hv as [s [<- _]]. rewrite procs_length, vecs_length. reflexivity. Qed.
+  Lemma vecs_nth s : 0 <= s < P -> nth (Z.to_nat s) vecs [] = procs s.
+  Proof.
+    intros Hs. unfold vecs. rewrite (nth_indep _ [] (procs 0)) by (rewrite map_length, ranks_length; lia).
+    rewrite (map_nth procs). f_equal. unfold ranks. rewrite (nth_indep _ 0 (Z.of_nat 0)) by (rewrite map_length, seq_length; lia).
+    rewrite (map_nth Z.of_nat), seq_nth by lia. simpl. lia.
+  Qed.
+
+  Lemma locals_eq : fst (fst (fst (RangesModel.adaptive_all vecs nr))) = map local (ranks P).
+  Proof.
+    unfold RangesModel.adaptive_all. cbn [fst]. rewrite vecs_length, zseq_ranks. unfold vecs. rewrite combine_map_r, map_map. reflexivity.
+  Qed.
+
+  Lemma maxwin_eq : maxwin = RangesModel.allreduce_max (map (fun s => fst (local s)) (ranks P)).
+  Proof.
+    unfold maxwin. pose proof locals_eq as H. unfold RangesModel.adaptive_all in *. cbn [fst snd] in *. rewrite H, map_map. reflexivity.
+  Qed.
+
+  Lemma gtbl_eq : gtbl = map (fun s => firstn (Z.to_nat maxwin) (snd (local s))) (ranks P).
+  Proof.
+    unfold gtbl, maxwin. pose proof locals_eq as H. unfold RangesModel.adaptive_all in *. cbn [fst snd] in *. rewrite H, map_map. reflexivity.
+  Qed.
+
+  Lemma local_array s : snd (local s) = RangesProps.ranges_array (procs s) s nr.
+  Proof. unfold local, RangesProps.ranges_array, RangesProps.compute_call. destruct (RangesModel.first_last (procs s) s). reflexivity. Qed.
+
+  Lemma gathered_table : unflat_rows (Z.to_nat P) (Z.to_nat maxwin) (concat (map contrib2 (ranks P))) = gtbl.
+  Proof.
+    rewrite gtbl_eq. unfold contrib2.
+    assert (Hrows : Forall (fun r : list (Z * Z) => length r = Z.to_nat maxwin) (map (fun s => firstn (Z.to_nat maxwin) (snd (local s))) (ranks P))).
+    2:{ pose proof (unflat_rows_concat (Z.to_nat maxwin) _ Hrows) as H. rewrite map_length, ranks_length, map_map in H. exact H. }
+    apply Forall_forall. intros r Hr. apply in_map_iff in Hr. destruct Hr as [s [<- _]].
+    rewrite firstn_length, local_array. destruct (RangesProps.compute_shape (procs s) s nr Hnr) as [Hl _]. rewrite Hl.
+    pose proof (RangesAdaptive.maxwin_le vecs nr Hnr vecs_uniform). fold maxwin in H.
+    assert (0 <= maxwin).
+    { rewrite maxwin_eq. unfold RangesModel.allreduce_max. destruct (RangesAdaptive.fold_max_spec (map (fun s0 => fst (local s0)) (ranks P)) 0) as [H0 _]. exact H0. }
+    lia.
+  Qed.
+
+  Lemma proc_listed q p : 0 <= q < P -> 0 <= p < P -> p <> q -> In p (R q) -> RangesModel.proc (procs q) p <> 0.
+  Proof.
+    intros Hq Hp Hne Hin. unfold RangesModel.proc, procs, ranges_procs.
+    rewrite (nth_indep _ 0 ((fun j => if j =? q then 0 else match index_of j (R q) 0 with Some i => Z.of_nat i + 1 | None => 0 end) 0))
+      by (rewrite map_length, ranks_length; lia).
+    rewrite (map_nth (fun j => if j =? q then 0 else match index_of j (R q) 0 with Some i => Z.of_nat i + 1 | None => 0 end)).
+    assert (Hn : nth (Z.to_nat p) (ranks P) 0 = p).
+    { unfold ranks. rewrite (nth_indep _ 0 (Z.of_nat 0)) by (rewrite map_length, seq_length; lia). rewrite (map_nth Z.of_nat), seq_nth by lia. simpl. lia. }
+    rewrite Hn. destruct (Z.eqb_spec p q); [contradiction|]. destruct (index_of_in p (R q) Hin) as [i Ei]. rewrite Ei. lia.
+  Qed.
+
+  Lemma ranges_cover q p : 0 <= q < P -> p <> q -> In p (R q) -> In p (RangesModel.receivers gtbl q).
+  Proof.
+    intros Hq Hne Hin. destruct (HR q Hq) as [_ Hrange]. specialize (Hrange p Hin).
+    unfold gtbl. apply (RangesAdaptive.adaptive_peers_are_receivers vecs nr Hnr vecs_uniform q p); [rewrite vecs_length; lia|].
+    rewrite (vecs_nth q Hq). apply RangesProps.peers_spec. rewrite procs_length. split; [lia|]. split; [apply proc_listed; assumption|exact Hne].
+  Qed.
+
+  (* ROUND SEMANTICS of the ranges program.  All receives name their source, so the replies are determined: the two
+     collectives by their contracts, the receive from q by the message q's program sends to me (its action list
+     contains Send me .. (rmsg q me) iff me is a decoded receiver of q, which by the symmetry of the decode is iff q is
+     a decoded sender of me).  The result is the transposed pattern, although the ranges over-approximate the peers. *)
+  Theorem ranges_round me : 0 <= me < P ->
+    let rcv := RangesModel.receivers gtbl me in
+    let snds := RangesModel.senders gtbl me in
+    run ([coll K_ALLREDUCE_MAX (map contrib1 (ranks P)) me; coll K_ALLGATHER (map contrib2 (ranks P)) me]
+           ++ repeat [] (length rcv) ++ map (fun q => q :: rmsg R pay hp sz q me) snds)
+        (ranges_core P me nr (R me) (rep R pay hp me) sz (fun s g => Ret (result s g)))
+    = (Coll K_ALLREDUCE_MAX (-1) (contrib1 me) :: Coll K_ALLGATHER (-1) (contrib2 me)
+         :: map (fun q => Send q c_SC_TAG_NOTIFY_RANGES (rmsg R pay hp sz me q)) rcv ++ map (fun q => Recv q c_SC_TAG_NOTIFY_RANGES) snds,
+       Some (result (transpose P R me) (if hp then map (fun s => pay s me) (transpose P R me) else []))).
+  Proof.
+    intros Hme rcv snds. unfold ranges_core. fold (procs me).
+    assert (Hloc : local me = (let '(fp, lp) := RangesModel.first_last (procs me) me in RangesModel.ranges_compute (procs me) me fp lp nr)) by reflexivity.
+    destruct (RangesModel.first_last (procs me) me) as [fp lp]. destruct (RangesModel.ranges_compute (procs me) me fp lp nr) as [nwin rarr] eqn:Erc.
+    cbn [app run].
+    assert (Hmw : nth 1 (coll K_ALLREDUCE_MAX (map contrib1 (ranks P)) me) 0 = maxwin).
+    { rewrite coll_max. cbn [nth]. rewrite maxwin_eq. f_equal. rewrite map_map. reflexivity. }
+    rewrite Hmw. rewrite coll_allgather. rewrite gathered_table.
+    pose proof (ranges_exchange P R pay hp sz HP HR gtbl) as Hex.
+    specialize (Hex ltac:(unfold gtbl; rewrite RangesAdaptive.tbl_length; apply vecs_length)
+                    (RangesAdaptive.adaptive_table_wf vecs nr Hnr vecs_uniform) ranges_cover me [] Hme).
+    cbv zeta in Hex. rewrite !app_nil_r in Hex. fold rcv snds in Hex.
+    match type of Hex with _ = ?rhs =>
+      match goal with |- context [run ?rs ?p] => let H := fresh "H" in assert (H : run rs p = rhs) by exact Hex; rewrite H end end.
+    unfold contrib1, contrib2. rewrite Hloc. cbn [fst snd]. reflexivity.
+  Qed.
+End Ranges.
+
+(* matching of the point-to-point part, from the symmetry of sc_ranges_decode on the gathered table (C15) *)
+Theorem ranges_matching P (R : Z -> list Z) nr : 0 < P -> 1 <= nr -> forall p q, 0 <= p < P -> p <> q ->
+  (In q (RangesModel.receivers (gtbl P R nr) p) <-> In p (RangesModel.senders (gtbl P R nr) q)).
+Proof.
+  intros HP Hnr p q Hp Hne. apply RangesDecode.decode_symmetric; [exact (RangesAdaptive.adaptive_table_wf _ nr Hnr (vecs_uniform P R))| |exact Hne].
+  unfold gtbl. rewrite RangesAdaptive.tbl_length, vecs_length. lia.
+Qed.
